@@ -5,6 +5,7 @@ import Hive.Model.EventsMaxN
 import Hive.Model.EventsPromise
 import Hive.Model.EventsNotifier
 import Hive.Model.EventsNotifierRace
+import Hive.Model.EventsNotifierConc
 import Hive.Model.EventsOMap
 import Hive.Spec.Events
 open Hive
@@ -17,9 +18,10 @@ structure DSt where
   it : EventsRelink.LSt
   pr : Promise.St
   vn : Notifier.St
+  vn2 : NotifierConc.Sh   -- the concurrent notifier model, sequentialised: must answer every `vn` line like `vn`
   om : EventsOMap.St
 
-def dinit : DSt := { ar := Events.init, p0 := Promise.init, ev := Events.init, it := EventsRelink.linit, pr := Promise.init, vn := Notifier.init, om := EventsOMap.init }
+def dinit : DSt := { ar := Events.init, p0 := Promise.init, ev := Events.init, it := EventsRelink.linit, pr := Promise.init, vn := Notifier.init, vn2 := NotifierConc.init, om := EventsOMap.init }
 
 def dstep (s : DSt) (toks : List String) : DSt × String :=
   match toks with
@@ -42,7 +44,10 @@ def dstep (s : DSt) (toks : List String) : DSt × String :=
     match r with
     | ["keytype", k] =>   -- the generic key type of the case's notifier: values are mapped injectively to keys, the model has no key types
       (s, if ["int", "string", "struct", "any"].contains k then "ok" else "bad-op")
-    | _ => let (x, o) := Notifier.stepLine s.vn r; ({ s with vn := x }, o)
+    | _ =>
+      let (x, o) := Notifier.stepLine s.vn r
+      let (y, o2) := NotifierConc.lineStep s.vn2 r
+      ({ s with vn := x, vn2 := y }, if o == o2 then o else s!"models-disagree sequential={o} concurrent={o2}")
   | "om" :: r => let (x, o) := EventsOMap.stepLine s.om r; ({ s with om := x }, o)
   | "vr" :: r => (s, NotifierRace.checkLine r)
   | "mt" :: r => (s, EventsSpec.checkMT r)
